@@ -1163,6 +1163,45 @@ def _abstract_nonlinear(fs, symmetric=False):
         for c in rest[1:]:
             s1, s2 = s1 + PH1(c), s2 + PH2(c)
         out.append(acc == PG(s1, s2))
+    if symmetric:
+        # distributivity (second stage only): a ground product with a sum as a factor equals the sum of the products; two rounds.
+        def addends(t):
+            if z3.is_app(t) and t.decl().kind() == z3.Z3_OP_ADD and t.num_args() <= 4:
+                return list(t.children())
+            if z3.is_app(t) and t.decl().kind() == z3.Z3_OP_SUB and t.num_args() == 2:
+                return [t.arg(0), -t.arg(1)]
+            return None
+
+        def mulf(x, y):
+            # numerals and numeral multiples stay linear
+            for u, v in ((x, y), (y, x)):
+                if isnum(u):
+                    return u * v
+                if z3.is_app(u) and u.decl().kind() == z3.Z3_OP_MUL and u.num_args() == 2 and isnum(u.arg(0)):
+                    return u.arg(0) * mulf(u.arg(1), v)
+                if z3.is_app(u) and u.decl().kind() == z3.Z3_OP_UMINUS:
+                    return -mulf(u.arg(0), v)
+            return MULF(x, y)
+        done_d = set()
+        for _ in range(2):
+            extra = []
+            for t in list(ground_subterms(out).values()):
+                if not (z3.is_app(t) and t.decl().eq(MULF)) or t.get_id() in done_d:
+                    continue
+                done_d.add(t.get_id())
+                a_, b_ = t.arg(0), t.arg(1)
+                for x, y in ((a_, b_), (b_, a_)):
+                    ys = addends(y)
+                    if ys:
+                        acc_ = None
+                        for yi in ys:
+                            m_ = mulf(x, yi)
+                            acc_ = m_ if acc_ is None else acc_ + m_
+                        extra.append(t == acc_)
+                        break
+            if not extra or len(extra) > 400:
+                break
+            out += extra
     return out
 
 
